@@ -347,6 +347,16 @@ where
         Error::MissedKeepAlive
     }
 
+    /// Ends the connection if a keep-alive went unanswered. The keep-alive handling is raced against
+    /// the adapters: when an adapter call completes while the timeout disconnect is still being sent,
+    /// the routing must not go on (and must not send anything behind that disconnect).
+    async fn end_if_keep_alive_missed(&mut self) -> Result<(), Error> {
+        if self.keep_alive_missed {
+            return Err(self.finish_missed_keep_alive().await);
+        }
+        Ok(())
+    }
+
     fn handle_keep_alive(&mut self, id: u64) {
         if self.keep_alive_id == Some(id) {
             self.keep_alive_id = None;
@@ -636,6 +646,7 @@ where
             result = self.keep_alive() => result?,
             maybe_targets = discovery_adapter.discover() => maybe_targets?,
         };
+        self.end_if_keep_alive_missed().await?;
 
         debug!("filtering targets");
         let filter_adapter = self.filter_adapter.clone();
@@ -649,6 +660,7 @@ where
                 targets,
             ) => maybe_targets?,
         };
+        self.end_if_keep_alive_missed().await?;
 
         debug!("selecting target");
         let strategy_adapter = self.strategy_adapter.clone();
@@ -662,6 +674,7 @@ where
                 targets,
             ) => maybe_target?,
         };
+        self.end_if_keep_alive_missed().await?;
 
         // disconnect if not target found
         let Some(target) = target else {
